@@ -254,9 +254,10 @@ def ob_fullfront(method, tier="quick"):
                 x = (EH("bool", name="x"),) if c.choose([True, True], "n-extra") == 1 else ()
                 signed = c.choose([True, True], "signed") == 1 if method in ("max", "min") else False
                 raised = None
+                n = 2 + c.choose([True, True], "n")
                 try:
                     if method in ("eval", "batch_eval"):
-                        r = getattr(f, method)(e if method == "eval" else [e], 2, extra_constraints=x)
+                        r = getattr(f, method)(e if method == "eval" else [e], n, extra_constraints=x)
                     elif method in ("max", "min"):
                         r = getattr(f, method)(e, extra_constraints=x, signed=signed)
                     elif method == "solution":
@@ -281,6 +282,12 @@ def ob_fullfront(method, tier="quick"):
                     if isinstance(s, GSolver):
                         c.check(label + "/query-solver-models", same_set(conj(s.assertions), conj(f.constraints)), "the backend was asked on a solver object that does not hold the constraints")
                         c.check(label + "/query-solver-tracked", not f._track or all(s.tracked), "tracking is on but the backend was asked on a solver object with an untracked assertion")
+                    if kind == method and method in ("eval", "batch_eval"):
+                        c.check(label + "/same-n", args[1] == n and (args[0] is e if method == "eval" else list(args[0]) == [e]), "the backend was asked for another number of values or another expression")
+                    if kind == method and method in ("max", "min"):
+                        c.check(label + "/same-signedness", kw.get("signed", False) == signed and args[0] is e, "the backend was asked for the optimum in the other signedness or of another expression")
+                    if kind == method and method == "solution":
+                        c.check(label + "/same-question", args[0] is e and args[1] is v, "the backend was asked about another expression or value")
                     xs = tuple(kw.get("extra_constraints", ()))
                     plain = tuple(t for t in xs if not isinstance(t, _Cmp))
                     c.check(label + "/extra-constraints-passed", len(plain) == len(x) and all(p is q_ for p, q_ in zip(plain, x)), "the caller's extra constraints were not handed to the backend")
